@@ -13,4 +13,5 @@ pub mod props;
 pub mod refpath;
 pub mod sandbox;
 pub mod sched;
+pub mod stdassoc;
 pub mod strgen;
